@@ -181,6 +181,27 @@ func runC13(r *lib.Run) {
 				if len(ops) == 0 {
 					continue
 				}
+				// sometimes a second update of the same container / list entry with a payload
+				// cut from the other tree: both payloads must be merged, in message order
+				if rng.Intn(3) == 0 {
+					for _, o := range ops {
+						if o.op != "update" || o.leaf != nil || o.kind == "ordered-container" || o.kind == "ordered-entry" {
+							continue
+						}
+						ps := lib.PathString(o.elems)
+						for _, c := range cands {
+							if c.leaf == nil && c.kind == o.kind && c.src != o.src && lib.PathString(c.elems) == ps {
+								c.op = "update"
+								if payloadFor(&c) == nil {
+									ops = append(ops, c)
+									r.Hit("same-path-updated-twice")
+								}
+								break
+							}
+						}
+						break
+					}
+				}
 				// common prefix split
 				k := 0
 				minLen := len(ops[0].elems)
@@ -288,7 +309,8 @@ func runC13(r *lib.Run) {
 						kl = append(kl, k)
 					}
 					sort.Strings(kl)
-					ctx := "multi-op"; _ = ctx
+					ctx := "multi-op"
+					_ = ctx
 					if len(kl) == 1 {
 						ctx = kl[0]
 					}
@@ -318,7 +340,8 @@ func runC13(r *lib.Run) {
 					for _, o := range applyOrder {
 						kl = append(kl, o.op+":"+o.kind)
 					}
-					ctx := "multi-op"; _ = ctx
+					ctx := "multi-op"
+					_ = ctx
 					if len(kl) == 1 {
 						ctx = kl[0]
 					}
@@ -331,7 +354,7 @@ func runC13(r *lib.Run) {
 		}
 		c13Atomic(r, cfg)
 	}
-	r.RequireCov("request-ok", "op:delete:leaf", "op:replace:container", "op:update:list-entry", "op:update:leaf", "op:replace:ordered-container", "atomic-ok")
+	r.RequireCov("request-ok", "op:delete:leaf", "op:replace:container", "op:update:list-entry", "op:update:leaf", "op:replace:ordered-container", "atomic-ok", "same-path-updated-twice")
 }
 
 func mustElems(o *lib.Obs, listPath string) []lib.PathElem {
